@@ -9,7 +9,7 @@ from ..profiles import Profile, register
 from ..universe import gen_universe
 
 PROPERTY = "C10"
-MALFORMED = ["$response.body#/id}", "$unknown.thing", "{$response.body#/id", "$response.body#id", "$request.path", "$response.header"]
+MALFORMED = ["$response.body#/id}", "$unknown.thing", "{$response.body#/id", "$response.body#id", "$request.path", "$response.header", "$request", "$response"]
 
 
 def gen_desc(verif_seed: int, i: int, tier: str = "quick") -> dict:
